@@ -10,7 +10,7 @@ package c05
 //       also queues of removed chains the keeper no longer lists;
 //   (c) MsgExecuteJobResponse.MessageID of job executions.
 // Oracle (reference model = everything seen so far):
-//   - every issued id is > every id seen before (strictly increasing for the lifetime of the chain)
+//   - every issued id is > every id committed before (strictly increasing for the lifetime of the chain)
 //   - an id lives in exactly one queue, and the id inside the stored value equals the key
 //   - an id that left the store never comes back (no reuse after remove / prune / chain removal)
 //   - replace (fee attachment, re-assignment) keeps id and queue; only the content changes
@@ -88,7 +88,6 @@ type idWorld struct {
 	owner     map[uint64]string // id -> queue it was first seen in
 	live      map[entry]string  // entries in the store at the last scan -> hash of Msg content
 	dead      map[uint64]int64  // ids that left the store -> height
-	lastPut   uint64
 	history   []string // compact op history for witnesses
 	stepNo    int
 	name      string
@@ -153,7 +152,10 @@ func (w *idWorld) observe(what string) {
 		rec.Count("ids_issued", 1)
 		rec.Count("ids_issued/"+queueKind(q), 1)
 		rec.Eval(1)
-		if id <= w.lastPut || id <= hwBefore {
+		if id <= hwBefore {
+			// hwBefore = highest id seen COMMITTED in the store before this block. Put lines are
+			// tentative (the surrounding cache context / tx may still be rolled back, in which
+			// case handing the same id out again is legitimate); committed ids are not.
 			prevQ := w.owner[id]
 			sig := "queue-id/not-increasing"
 			if prevQ != "" && prevQ != q {
@@ -161,19 +163,10 @@ func (w *idWorld) observe(what string) {
 			} else if prevQ != "" {
 				sig = "queue-id/reused"
 			}
-			w.violation(sig, fmt.Sprintf("PutMessageInQueue(%s) returned id %d although id %d was already handed out (highest id seen before this block %d; id %d first seen in %q)", q, id, max64(w.lastPut, hwBefore), hwBefore, id, prevQ),
-				map[string]any{"queue": q, "id": id, "last_issued": w.lastPut, "high_water": hwBefore, "first_seen_in": prevQ, "during": what})
-		}
-		if id > w.lastPut {
-			w.lastPut = id
-		}
-		if _, ok := w.owner[id]; !ok {
-			w.owner[id] = q
+			w.violation(sig, fmt.Sprintf("PutMessageInQueue(%s) returned id %d although ids up to %d were already committed (id %d first seen in %q)", q, id, hwBefore, id, prevQ),
+				map[string]any{"queue": q, "id": id, "high_water": hwBefore, "first_seen_in": prevQ, "during": what})
 		}
 		issued[id] = q
-		if id > w.hw {
-			w.hw = id
-		}
 	}
 	// (b) raw store scan
 	now := map[entry]string{}
@@ -230,6 +223,10 @@ func (w *idWorld) observe(what string) {
 			w.violation("queue-id/duplicate-across-queues", fmt.Sprintf("id %d was handed out for queue %s and now shows up in queue %s", e.ID, first, e.Queue),
 				map[string]any{"id": e.ID, "queues": []string{first, e.Queue}, "during": what})
 		}
+		if pq, viaPut := issued[e.ID]; viaPut && pq != e.Queue {
+			w.violation("queue-id/duplicate-across-queues", fmt.Sprintf("id %d was returned by PutMessageInQueue(%s) but is stored in queue %s", e.ID, pq, e.Queue),
+				map[string]any{"id": e.ID, "queues": []string{pq, e.Queue}, "during": what})
+		}
 		if _, viaPut := issued[e.ID]; !viaPut {
 			rec.Count("ids_new_without_put_line", 1)
 			if e.ID <= hwBefore {
@@ -255,8 +252,9 @@ func (w *idWorld) observe(what string) {
 	}
 	for id, q := range issued {
 		if _, ok := now[entry{q, id}]; !ok {
-			rec.Count("ids_issued_and_gone_within_block", 1)
-			w.dead[id] = w.c.Height
+			// created and removed within the block, or rolled back with its cache context: the
+			// id stays unconfirmed and takes no part in the reference model
+			rec.Count("ids_issued_not_in_store_at_block_end", 1)
 		}
 	}
 	w.live = now
